@@ -74,9 +74,9 @@ Print Assumptions c02_parse_classification.
     ([c02_parse_classification]); the lemmas are in srv/SrvC02.v. *)
 Close Scope N_scope.
 From RecordUpdate Require Import RecordUpdate.
-From JV Require SrvModel SrvLemmas SrvBasics SrvC01 SrvC02.
+From JV Require SrvModel SrvLemmas SrvBasics SrvC01 SrvC02 SrvHist SrvC02b.
 Module Live.
-Import SrvModel SrvLemmas SrvBasics SrvC01 SrvC02.
+Import SrvModel SrvLemmas SrvBasics SrvC01 SrvC02 SrvHist.
 
 (* a member rejected by validation / duplicate check / unknown method never has its handler invoked, on any
    continuation of any reachable state *)
@@ -157,4 +157,37 @@ Theorem c02_keeps_serving : forall s i s' os f,
   (crash s' = crash s \/ (work_closed s = true /\ crash s' = Some CrSendOnClosedWork)).
 Proof. exact SrvC02.c02_keeps_serving. Qed.
 Print Assumptions c02_keeps_serving.
+(* survival, over the transition system: in every reachable running state the window of the reader that holds a
+   record (any record) leaves the server running and not crashed (no reachable state has crashed: C08), the reader
+   back at Recv or already holding the next record, and the dispatcher alive *)
+Theorem c02_keeps_serving_reach : forall c s f i s' os, reach c s -> running s = true -> rd s = RHold f ->
+  f = FMsg i \/ f = FMsgEOF i -> step s LRelRead = Some (s', os) ->
+  running s' = true /\ crash s' = None /\ rd_live (rd s') = 1 /\ dp_live (dp s') = 1.
+Proof. exact SrvC02b.c02_keeps_serving_reach. Qed.
+Print Assumptions c02_keeps_serving_reach.
+
+(* an invalid member is rejected (duplicate-id error or its own validation error) and gets no context, whatever
+   else holds of it *)
+Theorem c02_invalid_member_rejected : forall s u ids m e, j_err m = Some e ->
+  let t := mk_task s u ids m in
+  t_st t = TSkip /\ t_hasctx t = false /\ (t_pre t = Some err_dup \/ t_pre t = Some (we_code e, we_msg e)).
+Proof. exact SrvC02b.c02_invalid_member_rejected. Qed.
+Print Assumptions c02_invalid_member_rejected.
+
+(* last clause of C02 at the level of rsp (bytes: wire/WireLink.v).  A [body] is by construction exactly one of a
+   result (BRes raw; BWild = the result of the built-in rpc.serverInfo) or an error object with an integer code and a
+   string message (BErr code msg).  Every element of every message sent in any window of any run is an error object
+   with id null and code -32700 / -32600, or the reply to a call of the accepted inbound message that the deliver
+   window answers (alog: srv/SrvHist.v): the id is that request's id (not null, not empty), the body a result or an
+   error object, the opaque BWild only for the built-in method. *)
+Theorem c02_emitted_is_response : forall c tr s oss l s' os ok b rs r,
+  run (init_of c) tr = Some (s, oss) -> step s l = Some (s', os) -> In (OSend ok b rs) os -> In r rs ->
+  (r_id r = null_bytes /\ exists code msg, r_body r = BErr code msg /\ (code = ParseError \/ code = InvalidRequest)) \/
+  (exists u ms t, l = LRelDeliver u /\ nth_error (alog (init_of c) tr []) u = Some (b, ms) /\
+     In t (unit_tasks s u) /\ In (tmem t) (map jmem ms) /\ finished t = true /\
+     r_id r = t_id t /\ r_id r <> [] /\ r_id r <> null_bytes /\
+     ((exists code msg, r_body r = BErr code msg) \/ (exists raw, r_body r = BRes raw) \/
+      (r_body r = BWild /\ t_builtin t = true))).
+Proof. exact SrvC02b.c02_emitted_is_response. Qed.
+Print Assumptions c02_emitted_is_response.
 End Live.
